@@ -213,6 +213,58 @@ def directed_cases(rng):
     return out
 
 
+def nest_text(units):
+    """units: 'I' #if block (line level), 'E' start of an expression statement (line -> expression level), then at
+    expression level 'P' parenthesis, 'U' unary minus, 'B' expression block, 'C' call argument, 'T' ternary branch,
+    'S' slice index, 'A' asm block (expression -> line level).  Returns the text nested in that order."""
+    out, close, level = [], [], "line"
+    for u in units:
+        if level == "line":
+            if u == "I":
+                out.append("#if 1\n{\n"); close.append("}\n")
+            else:  # anything else starts an expression statement
+                out.append("x = " if u != "D" else "#d8 "); close.append("\n"); level = "expr"
+                if u in "PUBCTS":
+                    units_more = u
+                    o, c = {"P": ("(", ")"), "U": ("-", ""), "B": ("{", "}"), "C": ("f(", ")"), "T": ("1 ? ", " : 0"), "S": ("y[", ":0]")}[u]
+                    out.append(o); close.append(c)
+                elif u == "A":
+                    out.append("asm {\n"); close.append("}"); level = "line"
+        else:
+            if u == "A":
+                out.append("asm {\n"); close.append("}"); level = "line"
+            elif u in "PUBCTS":
+                o, c = {"P": ("(", ")"), "U": ("-", ""), "B": ("{", "}"), "C": ("f(", ")"), "T": ("1 ? ", " : 0"), "S": ("y[", ":0]")}[u]
+                out.append(o); close.append(c)
+            else:  # 'I' or 'E' at expression level: go through an asm block first
+                out.append("asm {\n"); close.append("}"); level = "line"
+                if u == "I":
+                    out.append("#if 1\n{\n"); close.append("}\n")
+                else:
+                    out.append("x = "); close.append("\n"); level = "expr"
+    out.append("1" if level == "expr" else "nop\n")
+    return "".join(out) + "".join(reversed(close))
+
+
+def alternating_cases(rng, n):
+    """deep alternating nestings [expression brackets x asm x #if] with the two cumulative totals around their limits"""
+    out = []
+    for pat in ["IA", "AI", "PA", "PPA", "UA", "BA", "CA", "TA", "SA", "PAI", "IPA", "IIPPA", "PUBCA", "A", "I", "P", "EA", "EAI"]:
+        for k in [1, 2, 10, 16, 17, 24, 25, 26, 33, 34, 48, 49, 50, 51, 52]:
+            u = (pat * k)
+            for cut in [len(u)] + ([len(u) - 1] if len(pat) > 1 else []):
+                out.append(("alt:%s*%d" % (pat, k), nest_text(u[:cut])))
+    for _ in range(n):
+        blocks = rng.range(40, 53)
+        exprs = rng.range(40, 54)
+        units = ["I" if rng.chance(0.5) else "A" for _ in range(blocks)] + [rng.choice("PUBCTSPP") for _ in range(exprs)]
+        if rng.chance(0.3):
+            units = units[:rng.range(1, len(units))]
+        units = rng.shuffle(units)
+        out.append(("alt:random b=%d e=%d" % (blocks, exprs), nest_text("".join(units))))
+    return out
+
+
 def first_diff(a, b):
     i = 0
     while i < min(len(a), len(b)) and a[i] == b[i]:
@@ -319,7 +371,7 @@ def run_streams(chk, quick=True):
         kinds[k] = kinds.get(k, 0) + 1
     bad += compare(chk, "asmparser_mutants", [("%s of %s" % (k, n), t) for (k, n, t) in muts], exe, bins)
     chk.cov["streams"]["asmparser_mutants"].update({"kind_" + k: v for k, v in kinds.items()})
-    directed = directed_cases(rng.fork("dir"))
+    directed = directed_cases(rng.fork("dir")) + alternating_cases(rng.fork("alt"), 1500 if quick else 12000)
     bad += compare(chk, "asmparser_directed", directed, exe, bins, budget=12)
     fuel_margin(chk, exe, [(n, t) for (n, t) in files] + directed + [(k + " of " + n, t) for (k, n, t) in muts[:4000]])
     progs = gen_programs(rng.fork("gen"), 4800 if quick else 32000)
